@@ -212,6 +212,65 @@ Definition add_name (n : names) (entry : string) : option (names * nat) :=
       end
   end.
 
+(* ------------------------------------------------------- file input: types *)
+(* The class column of wordlist.rc, as far as it is modelled: what
+   QLCParser.__init__ does to the cells of a column when the wordlist is read
+   from a file (self._class[head](cell); a ValueError leaves the string). *)
+Inductive kind :=
+| KStr        (* str *)
+| KInt        (* int *)
+| KInteger    (* basictypes.integer: int(x) if x else 0 *)
+| KInts       (* basictypes.ints / lambda x: [int(s) for s in x.split()] *)
+| KStrs       (* basictypes.lists / lambda x: x.split() *)
+| KOther.     (* anything else (floats, split(" "), ...): outside the model *)
+
+(* a cell of the file as the harness pre-parses it with Python's own str.split
+   and int: the code of the whole (stripped) string, int(string) if that
+   succeeds, and the whitespace-separated tokens with int(token) if that succeeds *)
+Record raw := { r_str : Z; r_int : option Z; r_toks : list (Z * option Z) }.
+
+Definition conv (k : kind) (r : raw) : option cell :=
+  match k with
+  | KStr => Some (Atom (r_str r))
+  | KInt => Some (match r_int r with Some z => Atom z | None => Atom (r_str r) end)
+  | KInteger => Some (if r_str r =? EMPTY then Atom 0
+                      else match r_int r with Some z => Atom z | None => Atom (r_str r) end)
+  | KInts => Some (match all_some (map snd (r_toks r)) with
+                   | Some zs => Multi zs
+                   | None => Atom (r_str r)           (* ValueError: the string stays *)
+                   end)
+  | KStrs => Some (Multi (map fst (r_toks r)))
+  | KOther => None
+  end.
+
+(* parser.read_conf: classD, keyed like aliasD (later lines overwrite earlier ones) *)
+Definition kinds_line (m : list (string * kind)) (ln : (string * list string) * kind) :=
+  let name := fst (fst ln) in let k := snd ln in
+  let m := sset (sset m (lower name) k) (upper name) k in
+  fold_left (fun m a => sset (sset m (lower a) k) (upper a) k) (snd (fst ln)) m.
+Definition read_kinds (t : list ((string * list string) * kind)) : list (string * kind) :=
+  fold_left kinds_line t [].
+
+(* the class of a header column: configured, or str for an unknown name *)
+Definition kind_of (kd : list (string * kind)) (h : string) : kind :=
+  match sget kd h with Some k => k | None => KStr end.
+
+Fixpoint conv_cells (ks : list kind) (rs : list raw) : option (list cell) :=
+  match ks, rs with
+  | k :: ks', r :: rs' =>
+      match conv k r, conv_cells ks' rs' with
+      | Some c, Some cs => Some (c :: cs)
+      | _, _ => None
+      end
+  | [], rs' => Some (map (fun r => Atom (r_str r)) rs')     (* cells beyond the header: untouched strings *)
+  | _ :: _, [] => Some []
+  end.
+
+(* the typed rows of a file: None when a column has a class outside the model *)
+Definition convert_rows (kd : list (string * kind)) (hdr : list string) (d : list (Z * list raw))
+  : option (list row) :=
+  all_some (map (fun r => option_map (pair (fst r)) (conv_cells (map (kind_of kd) hdr) (snd r))) d).
+
 (* ------------------------------------------------------------- row layer *)
 (* self._data: integer keys k != 0 with str(k).isnumeric(), i.e. k > 0 *)
 Definition keep_rows (d : list row) : list row := filter (fun r => 0 <? fst r) d.
